@@ -399,4 +399,20 @@ Proof.
     eapply (proj1 Cw); eauto.
 Qed.
 
+(* an operation with destination handle h in some model leaves every OTHER model b alone: its record, its files, its
+   whole tree (node by node) and its reachable set are unchanged; whatever the operation allocated is not in b *)
+Theorem independent_op o h w r w' b xb nb :
+  local_dest o = Some h -> Closed w ->
+  run_op T tab_el tab_en check_fn LATEST root_attrs o w = Val (r, w') ->
+  nth_opt (w_models w) (N.to_nat b) = Some xb -> w_nodes w (m_root xb) = Some nb ->
+  (forall x, Sub w (m_root xb) x -> x <> h) ->
+  model_of h w <> Val (OK b, w) ->
+  nth_opt (w_models w') (N.to_nat b) = Some xb /\ w_files w' = w_files w /\
+  (forall x, Sub w (m_root xb) x -> w_nodes w' x = w_nodes w x) /\
+  (forall x, Sub w' (m_root xb) x <-> Sub w (m_root xb) x) /\
+  (forall x, Sub w' (m_root xb) x -> x < w_next w).
+Proof.
+  intros Hd Cw H. eapply independent; eauto. eapply local_frame; eauto.
+Qed.
+
 End Frame.
